@@ -314,23 +314,23 @@ func (r *Run) Violations() int {
 
 // Stats is the per-shard statistics file.
 type Stats struct {
-	Property   string           `json:"property"`
-	Shard      int              `json:"shard"`
-	Tier       string           `json:"tier"`
-	Seed       uint64           `json:"seed"`
-	Evals      int64            `json:"evaluations"`
-	Distinct   int              `json:"distinct_nontrivial"`
-	HashFile   string           `json:"hash_file"`
-	Classes    map[string]int64 `json:"classes"`
-	Samples    []any            `json:"samples"`
-	Violations []Violation      `json:"violations"`
-	KnownHits  map[string]int64 `json:"known_hits"`
+	Property   string            `json:"property"`
+	Shard      int               `json:"shard"`
+	Tier       string            `json:"tier"`
+	Seed       uint64            `json:"seed"`
+	Evals      int64             `json:"evaluations"`
+	Distinct   int               `json:"distinct_nontrivial"`
+	HashFile   string            `json:"hash_file"`
+	Classes    map[string]int64  `json:"classes"`
+	Samples    []any             `json:"samples"`
+	Violations []Violation       `json:"violations"`
+	KnownHits  map[string]int64  `json:"known_hits"`
 	KnownWhat  map[string]string `json:"known_what"`
-	Excluded   int64            `json:"excluded_by_known_findings"`
-	Exhaustive []string         `json:"exhaustive"`
-	Notes      []string         `json:"notes"`
-	WallS      float64          `json:"wall_s"`
-	Complete   bool             `json:"complete"`
+	Excluded   int64             `json:"excluded_by_known_findings"`
+	Exhaustive []string          `json:"exhaustive"`
+	Notes      []string          `json:"notes"`
+	WallS      float64           `json:"wall_s"`
+	Complete   bool              `json:"complete"`
 }
 
 // Finish writes the shard's statistics. It must run even when the test is
@@ -387,4 +387,24 @@ func LoadReplay(path string) (*ReplayFile, error) {
 		return nil, err
 	}
 	return &rf, nil
+}
+
+// Danger records, before a step that may kill the whole process (a panic
+// escaping the code under test, a fatal runtime error), the violation that
+// such a death would mean. Safe removes the record. If the process dies in
+// between, the driver finds the file and reports the violation.
+func (r *Run) Danger(sub, signature, message string, c any) {
+	raw, err := json.Marshal(c)
+	if err != nil {
+		raw, _ = json.Marshal(fmt.Sprintf("%+v", c))
+	}
+	rf := ReplayFile{Property: r.Property, Sub: sub, Signature: signature, Message: message, Case: raw}
+	data, _ := json.Marshal(rf)
+	os.MkdirAll(r.Env.OutDir, 0o755)
+	os.WriteFile(filepath.Join(r.Env.OutDir, fmt.Sprintf("%s.%d.pending", r.Property, r.Env.Shard)), data, 0o644)
+}
+
+// Safe removes the record written by Danger.
+func (r *Run) Safe() {
+	os.Remove(filepath.Join(r.Env.OutDir, fmt.Sprintf("%s.%d.pending", r.Property, r.Env.Shard)))
 }
